@@ -298,7 +298,8 @@ func init() {
 	}
 
 	// ---------------------------------------------------------------- object header v1 / v2
-	// "encoded bytes" = file image: zeros up to addr, the header written by WriteTo at addr, then "suf"
+	// "encoded bytes" = file image: "pre" (addr bytes; zeros when absent), the header written by WriteTo at
+	// addr (any address, aligned or not), then "suf"
 	c11Codecs["ohdr"] = c11Codec{
 		enc: func(val json.RawMessage, sb *core.Superblock) ([]byte, error) {
 			var v struct {
@@ -310,6 +311,7 @@ func init() {
 					Data string `json:"data"`
 				} `json:"msgs"`
 				Suf string `json:"suf"`
+				Pre string `json:"pre"`
 			}
 			if err := json.Unmarshal(val, &v); err != nil {
 				return nil, err
@@ -327,6 +329,16 @@ func init() {
 				return nil, err
 			}
 			mem := &c11Mem{b: make([]byte, sb.BaseAddress)}
+			if v.Pre != "" {
+				pre, err := hex.DecodeString(v.Pre)
+				if err != nil {
+					return nil, err
+				}
+				if uint64(len(pre)) != sb.BaseAddress {
+					return nil, fmt.Errorf("pre has %d bytes, address is %d", len(pre), sb.BaseAddress)
+				}
+				copy(mem.b, pre)
+			}
 			n, err := w.WriteTo(mem, sb.BaseAddress)
 			if err != nil {
 				return nil, err
